@@ -188,6 +188,9 @@ func genE2E(r *Rng) E2EReplay {
 // direct writes to 1-2 partitions of the storage-only server; the write events are observed
 func genPos(r *Rng) E2EReplay {
 	rp := E2EReplay{Kind: "pos", MaxRec: 4096, MaxChunk: int64(r.PickInt(40, 60, 100, 150, 300, 1000))}
+	if r.Chance(1, 5) {
+		rp.MaxRec = int64(r.PickInt(40, 64, 100)) // some records will exceed it: the batch is rejected at that event
+	}
 	nparts := r.Range(1, 2)
 	budget := 1500
 	nreq := r.Range(2, 7)
@@ -214,6 +217,9 @@ func genPos(r *Rng) E2EReplay {
 
 func genConc(r *Rng) E2EReplay {
 	rp := E2EReplay{Kind: "conc", MaxRec: 4096, MaxChunk: int64(r.PickInt(60, 120, 200, 400))}
+	if r.Chance(1, 4) {
+		rp.MaxRec = int64(r.PickInt(36, 40, 48)) // events with longer fields exceed it: their writer stops there, failed
+	}
 	k := r.Range(2, 4)
 	for w := 0; w < k; w++ {
 		n := r.Range(4, 12)
@@ -234,17 +240,19 @@ func corpus() []Replay {
 	for i := range big {
 		big[i] = 'x'
 	}
-	// C01_reject_refuted witness: one record above MaxRecordSize is acknowledged, then the partition cannot be read
-	oversize := E2EReplay{Kind: "e2e", MaxChunk: 65536, MaxRec: 1000, Note: "witness of C01_reject_refuted", Reqs: []Req{
+	// witness of C01_reject_unlimited_refuted (the code before its repair acknowledged the record above MaxRecordSize,
+	// then the partition could not be read): the write must be rejected and the partition stay readable
+	oversize := E2EReplay{Kind: "e2e", MaxChunk: 65536, MaxRec: 1000, Note: "witness of C01_reject_unlimited_refuted: must be rejected", Reqs: []Req{
 		{Kind: "rpc", Tags: "p=1,app=a", Aes: []AE{{Ts: 1, Msg: []byte("small")}}},
 		{Kind: "rpc", Tags: "p=1,app=a", Aes: []AE{{Ts: 2, Msg: big}}},
 		{Kind: "rpc", Tags: "p=1,app=a", Aes: []AE{{Ts: 3, Msg: []byte("after")}}},
 	}}
-	// a packet whose count says 2 events but which carries 1: acknowledged, the decodable prefix is stored
+	// a packet whose count says 2 events but which carries 1 (witness of C01_reject_truncated_eof_refuted): must be
+	// rejected; the event it carries may be stored
 	body, _, _ := rpc.VC01EncodeWritePacket("p=1,app=a", "", toApis([]AE{{Ts: 7, Msg: []byte("only")}}))
 	hdr := len(body) - rpc.VC01LogEventSize(toApi(AE{Ts: 7, Msg: []byte("only")}))
 	body[hdr-1] = 2
-	trunc := E2EReplay{Kind: "e2e", MaxChunk: 65536, MaxRec: 4096, Note: "witness of C01_reject_truncated_refuted", Reqs: []Req{{Kind: "raw", Body: body}}}
+	trunc := E2EReplay{Kind: "e2e", MaxChunk: 65536, MaxRec: 4096, Note: "witness of C01_reject_truncated_eof_refuted: must be rejected", Reqs: []Req{{Kind: "raw", Body: body}}}
 	// roll-over inside a batch with fields on both levels
 	roll := E2EReplay{Kind: "e2e", MaxChunk: 100, MaxRec: 4096, Reqs: []Req{
 		{Kind: "rpc", Tags: "p=1,app=a", Flds: "host=h1", Aes: []AE{{Ts: 1, Msg: []byte("0123456789012345678901234567890123456789"), Flds: "e=1"}, {Ts: 2, Msg: []byte("b")}, {Ts: 3, Msg: []byte("0123456789012345678901234567890123456789"), Flds: "x=y"},
